@@ -94,6 +94,14 @@ def _wrap(raw):
     )
 
 
+def _wrap_last(raw):
+    """The dropped field comes LAST: a prefix cut inside it must raise although nothing is read after it."""
+    return (
+        {"type": "record", "name": "WrapL__", "fields": [{"name": "keep", "type": "int"}, {"name": "skipme", "type": raw}]},
+        {"type": "record", "name": "WrapL__", "fields": [{"name": "keep", "type": "int"}]},
+    )
+
+
 def check_bytes(fa, res, ctx, buf, expect, mode, seen):
     """mode 'valid': must decode to expect; mode 'bad': must raise."""
     kb = (mode, buf)
@@ -180,9 +188,20 @@ def run_case(fa, res, raw, node, defs, d, tier, seen):
             res.stats["bad_index_cases"] += 1
             check_bytes(fa, res, (raw, W, R, dict(info, bad_index=bad, at=a, kind=kind)), mutated, None, "bad-index", seen)
     # (c) proper prefixes: read path on value bytes, skip path on the wrapped record's bytes
+    WL, RL = _wrap_last(raw)
     for cut in range(len(single)):
         res.stats["prefix_cases"] += 1
         check_bytes(fa, res, (raw, W, R, dict(info, cut=cut)), single[:cut], None, "prefix", seen)
+        # value as the trailing, skipped field of a record
+        res.evals += 1
+        buf = binary.zigzag(KEEP) + single[:cut]
+        try:
+            got = fa.schemaless_reader(io.BytesIO(buf), WL, RL)
+        except Exception:
+            continue
+        res.add(Violation("c03.prefix.skip", "prefix-skip-last-returned-value",
+                          f"prefix {single[:cut].hex()} of {single.hex()} in a skipped TRAILING field returned {short(got)} instead of raising | {short(info, 300)}",
+                          dict(info, buf=single[:cut], mode="prefix-last", cut=cut)))
 
 
 def run_unit(i, tier):
@@ -226,6 +245,14 @@ def replay(case):
     node, defs = names.resolve(raw)
     W, R = _wrap(raw)
     v, idx = conform.plan(node, defs, case["datum"])
+    if case["mode"] == "prefix-last":
+        WL, RL = _wrap_last(raw)
+        try:
+            got = fa.schemaless_reader(io.BytesIO(binary.zigzag(KEEP) + case["buf"]), WL, RL)
+            res.add(Violation("c03.prefix.skip", "prefix-skip-last-returned-value", f"returned {short(got)}", case))
+        except Exception:
+            pass
+        return res.violations
     check_bytes(fa, res, (raw, W, R, case), case["buf"], v, case["mode"], set())
     return res.violations
 
